@@ -20,7 +20,7 @@ func init() {
 			"C05.txlife — path-sensitive typestate of bbolt transactions in both writers: after Commit no method is called on that transaction or on a bucket obtained from it until both are re-derived (the 1001st value of the in-memory writer); " +
 			"C05.flushorder — the big writer commits its pending temp transaction before it opens the read transaction on the temp database; " +
 			"C05.sorted — slices filled while ranging over the schema's maps (GetSchema: columns and values) are sorted ascending by their string key before use, or are slices.Sorted over the maps' keys, and are not reversed afterwards; " +
-			"C05.codec — writers and readers of the three record kinds (bitmap key, row counter, temp key) agree on byte order, width and offsets (= C01.codec); C05.schemaenc — both writers gob-encode their schema field under the schema key and the open function decodes that key into the same type; C05.rowcount — the row counter written is the writer's own counter field (one per AddRow call, also for rows without columns; 'own' = selected from the writer object, also when the field sits in a struct the writer holds by value, such as a header embedded in both writers and the Index — the same holds for the schema field of C05.schemaenc); C05.schemaadd — every path through schema.add finds or enters both the column and the value in the schema maps before it returns an index. " +
+			"C05.codec — writers and readers of the three record kinds (bitmap key, row counter, temp key) agree on byte order, width and offsets (= C01.codec); C05.schemaenc — both writers gob-encode their schema field under the schema key (also when the encoded bytes travel as an argument of a storage helper or as the value field of an entry of an encoded entry list that a helper stores with Put(e.key, e.value)), every successful flush has stored it, and the open function decodes that key into the same type; C05.rowcount — the row counter written (directly, through a helper parameter or as an entry of an encoded entry list) by every successful flush is the writer's own counter field (one per AddRow call, also for rows without columns; 'own' = selected from the writer object, also when the field sits in a struct the writer holds by value, such as a header embedded in both writers and the Index — the same holds for the schema field of C05.schemaenc); C05.schemaadd — every path through schema.add finds or enters both the column and the value in the schema maps before it returns an index. " +
 			"NOT decided: observational identity of the two writers' outputs and exact schema/value sets (values); idempotence of reopening beyond the file not being written (C16).",
 		assumptions: []string{"bbolt: a transaction and its buckets are invalid after Commit", "roaring ToBytes serialises the whole bitmap", "encoding/gob round-trips the schema type", "loops unrolled up to 3 iterations cover the first/next/same-value cases of the merge loop"},
 	})
@@ -462,13 +462,20 @@ func schemaEncRule(c *Ctx, rule string) {
 		name := safeFname(anchor)
 		okEnc := false
 		why := "no gob Encode of the writer's schema whose buffer is stored under the schema key"
-		for _, fn := range c.scope(anchor, 2) {
-			allInstrs(fn, func(i ssa.Instruction) {
-				put, ok := i.(*ssa.Call)
-				if !ok || calleeName(&put.Call) != boltPut || keyKind(c, put.Call.Args[1]) != "schema" {
-					return
+		scope := c.scope(anchor, 2)
+		// (the value may be a parameter of a storage helper — putIndexMeta(bucket, encodedSchema, n) — which is bound to the
+		// arguments of the helper's calls in the scope, or the value field of an entry of an encoded entry list, rules_ag23.go)
+		stored, tops := keyedPutValues(c, scope, "schema")
+		for _, sv := range stored {
+			func() {
+				var vals []ssa.Value
+				for _, b := range callerArgsIn(scope, anchor, sv.v, sv.fn, 0) {
+					enc := gobEncoded(c, b, 0)
+					if len(enc) == 0 {
+						return
+					}
+					vals = append(vals, enc...)
 				}
-				vals := gobEncoded(c, put.Call.Args[2], 0)
 				if len(vals) == 0 {
 					return
 				}
@@ -487,9 +494,21 @@ func schemaEncRule(c *Ctx, rule string) {
 				} else {
 					why = "what is gob-encoded is not the writer's own schema field"
 				}
-			})
+			}()
 		}
-		c.r.check(okEnc, rule, name, "gob(schema field) stored under the schema key", "the schema key does not receive the gob encoding of the writer's schema: "+why, c.w.pos(anchor.Pos()))
+		if !okEnc && len(tops) > 0 {
+			c.r.undecided(rule, name, "what is stored under the schema key cannot be established: the entries come from a list the rule cannot follow: "+tops[0].why, c.w.pos(anchor.Pos()))
+		} else {
+			c.r.check(okEnc, rule, name, "gob(schema field) stored under the schema key", "the schema key does not receive the gob encoding of the writer's schema: "+why, c.w.pos(anchor.Pos()))
+		}
+		// and it is stored by every successful flush (an index without schema is not an index: the round trip is lost)
+		if okEnc {
+			if p := c.headerMissingPath(anchor, "schema", 3, isSuccessReturn); p != nil {
+				c.r.bad(rule, name+": always", "a flush can return successfully without having stored the schema: the file it leaves is rejected by the open function (or opens with the schema of an older flush), so the round trip is lost — typically a writer without bitmaps, whose write loop runs zero times", []string{c.w.ipos(p[len(p)-1])}, c.fc.witnessStrings(p)...)
+			} else {
+				c.r.ok(rule, name+": always", "every successful return has stored the schema", c.w.pos(anchor.Pos()))
+			}
+		}
 	}
 	// reader
 	okDec := false
@@ -565,24 +584,32 @@ func gobEncoded(c *Ctx, buf ssa.Value, depth int) []ssa.Value {
 	}
 	if bc, ok := buf.(*ssa.Call); ok && calleeName(&bc.Call) == "(*bytes.Buffer).Bytes" {
 		var out []ssa.Value
-		allInstrs(bc.Parent(), func(i ssa.Instruction) {
-			call, ok := i.(*ssa.Call)
-			if !ok || calleeName(&call.Call) != "(*encoding/gob.Encoder).Encode" {
-				return
-			}
-			enc, ok := call.Call.Args[0].(*ssa.Call)
-			if !ok || calleeName(&enc.Call) != "encoding/gob.NewEncoder" {
-				return
-			}
-			if mi, ok := enc.Call.Args[0].(*ssa.MakeInterface); !ok || mi.X != bc.Call.Args[0] {
-				return
-			}
-			arg := call.Call.Args[1]
-			if mi, ok := arg.(*ssa.MakeInterface); ok {
-				arg = mi.X
-			}
-			out = append(out, arg)
-		})
+		// (a buffer of the enclosing function read inside a function literal — the callback of DB.Update — is the same buffer)
+		buffer := peelCell(bc.Call.Args[0])
+		fns := []*ssa.Function{bc.Parent()}
+		if al, ok := buffer.(*ssa.Alloc); ok && al.Parent() != nil && al.Parent() != bc.Parent() {
+			fns = append(fns, al.Parent())
+		}
+		for _, fn := range fns {
+			allInstrs(fn, func(i ssa.Instruction) {
+				call, ok := i.(*ssa.Call)
+				if !ok || calleeName(&call.Call) != "(*encoding/gob.Encoder).Encode" {
+					return
+				}
+				enc, ok := call.Call.Args[0].(*ssa.Call)
+				if !ok || calleeName(&enc.Call) != "encoding/gob.NewEncoder" {
+					return
+				}
+				if mi, ok := enc.Call.Args[0].(*ssa.MakeInterface); !ok || peelCell(mi.X) != buffer {
+					return
+				}
+				arg := call.Call.Args[1]
+				if mi, ok := arg.(*ssa.MakeInterface); ok {
+					arg = mi.X
+				}
+				out = append(out, arg)
+			})
+		}
 		return out
 	}
 	if call, callee, vals, ok := resultOrigins(c.w, buf); ok {
@@ -624,43 +651,22 @@ func rowCountRule(c *Ctx, rule string) {
 			continue
 		}
 		scope := c.scope(anchor, 2)
-		// callerArgs: v, a value of fn's frame; if it is (a conversion of) a parameter of a helper fn, the arguments bound
-		// to it at the helper's call sites in the scope (followed through two helper levels). A helper nobody in the scope
-		// calls keeps its parameter, which is no field load and fails the test below.
-		var callerArgs func(v ssa.Value, fn *ssa.Function, depth int) []ssa.Value
-		callerArgs = func(v ssa.Value, fn *ssa.Function, depth int) []ssa.Value {
-			p, isParam := peelConv(v).(*ssa.Parameter)
-			if !isParam || fn == anchor || depth > 2 {
-				return []ssa.Value{v}
-			}
-			k := -1
-			for j, q := range fn.Params {
-				if q == p {
-					k = j
-				}
-			}
-			var out []ssa.Value
-			for _, g := range scope {
-				allInstrs(g, func(i ssa.Instruction) {
-					if cc := callCommon(i); cc != nil && calleeFunc(cc) == fn && k >= 0 && k < len(cc.Args) {
-						out = append(out, callerArgs(cc.Args[k], g, depth+1)...)
-					}
-				})
-			}
-			if len(out) == 0 {
-				return []ssa.Value{v}
-			}
-			return out
-		}
-		for _, fn := range scope {
-			allInstrs(fn, func(i ssa.Instruction) {
-				put, isPut := i.(*ssa.Call)
-				if !isPut || calleeName(&put.Call) != boltPut || keyKind(c, put.Call.Args[1]) != "rows" {
-					return
-				}
+		// (what is stored: the value of a Put under the row-counter key, or the value field of the row-counter entry of an
+		// encoded entry list, rules_ag23.go; callerArgsIn binds a helper's parameter to the arguments of its calls)
+		stored, tops := keyedPutValues(c, scope, "rows")
+		for _, sv := range stored {
+			func() {
 				var vals []ssa.Value
-				for _, val := range encodedUint32(c, put.Call.Args[2], 0) {
-					vals = append(vals, callerArgs(val, fn, 0)...)
+				for _, b := range callerArgsIn(scope, anchor, sv.v, sv.fn, 0) {
+					for _, val := range encodedUint32(c, b, 0) {
+						fn := sv.fn
+						if ins, ok := val.(ssa.Instruction); ok {
+							fn = ins.Parent()
+						} else if p, ok := val.(*ssa.Parameter); ok {
+							fn = p.Parent()
+						}
+						vals = append(vals, callerArgsIn(scope, anchor, val, fn, 0)...)
+					}
 				}
 				if len(vals) == 0 {
 					return
@@ -679,10 +685,90 @@ func rowCountRule(c *Ctx, rule string) {
 				} else {
 					why = "the value stored as row counter is not the writer's own row counter field (which counts every AddRow call, including rows without columns)"
 				}
-			})
+			}()
 		}
-		c.r.check(ok, rule, name, "row counter key <- writer's counter field", "the persisted row counter is wrong: "+why, c.w.pos(anchor.Pos()))
+		if !ok && len(tops) > 0 {
+			c.r.undecided(rule, name, "what is stored under the row-counter key cannot be established: the entries come from a list the rule cannot follow: "+tops[0].why, c.w.pos(anchor.Pos()))
+		} else {
+			c.r.check(ok, rule, name, "row counter key <- writer's counter field", "the persisted row counter is wrong: "+why, c.w.pos(anchor.Pos()))
+		}
+		// and it is stored by every successful flush
+		if ok {
+			if p := c.headerMissingPath(anchor, "rows", 3, isSuccessReturn); p != nil {
+				c.r.bad(rule, name+": always", "a flush can return successfully without having stored the row counter: the file it leaves is rejected by the open function (or keeps the counter of an older flush) — typically a writer without bitmaps, whose write loop runs zero times", []string{c.w.ipos(p[len(p)-1])}, c.fc.witnessStrings(p)...)
+			} else {
+				c.r.ok(rule, name+": always", "every successful return has stored the row counter", c.w.pos(anchor.Pos()))
+			}
+		}
 	}
+}
+
+// callerArgsIn: v, a value of fn's frame; if it is (a conversion of) a parameter of a helper fn, the arguments bound to it
+// at the helper's call sites in the scope (followed through two helper levels). A helper nobody in the scope calls keeps
+// its parameter, which is no field load / no encoding and fails the callers' tests.
+func callerArgsIn(scope []*ssa.Function, anchor *ssa.Function, v ssa.Value, fn *ssa.Function, depth int) []ssa.Value {
+	p, isParam := peelConv(v).(*ssa.Parameter)
+	if !isParam || fn == anchor || depth > 2 {
+		return []ssa.Value{v}
+	}
+	fn = p.Parent()
+	k := -1
+	for j, q := range fn.Params {
+		if q == p {
+			k = j
+		}
+	}
+	var out []ssa.Value
+	for _, g := range scope {
+		allInstrs(g, func(i ssa.Instruction) {
+			if cc := callCommon(i); cc != nil && calleeFunc(cc) == fn && k >= 0 && k < len(cc.Args) {
+				out = append(out, callerArgsIn(scope, anchor, cc.Args[k], g, depth+1)...)
+			}
+		})
+	}
+	if len(out) == 0 {
+		return []ssa.Value{v}
+	}
+	return out
+}
+
+// keyedPutValues: the values that the functions of the scope store under the key of the given kind: the value argument
+// of a Put whose key keyKind classifies, and the value field of every entry of that kind in an encoded entry list that a
+// list Put walks (rules_ag23.go; an entry whose value field is not the one the Put stores does not count). tops: the
+// entry lists met that cannot be followed.
+type storedVal struct {
+	v  ssa.Value
+	fn *ssa.Function
+}
+
+func keyedPutValues(c *Ctx, scope []*ssa.Function, kind string) (out []storedVal, tops []*entList) {
+	for _, fn := range scope {
+		allInstrs(fn, func(i ssa.Instruction) {
+			put, isPut := i.(*ssa.Call)
+			if !isPut || calleeName(&put.Call) != boltPut {
+				return
+			}
+			if keyKind(c, put.Call.Args[1]) == kind {
+				out = append(out, storedVal{put.Call.Args[2], fn})
+				return
+			}
+			lp, ok := listPutOf(put)
+			if !ok {
+				return
+			}
+			l := c.listOfPut(lp)
+			if l.top {
+				tops = append(tops, l)
+				return
+			}
+			for _, s := range l.segs {
+				if c.segKind(s, lp.fk) == kind && lp.fv >= 0 && s.fields[lp.fv] != nil {
+					out = append(out, storedVal{s.fields[lp.fv], s.fn})
+				}
+			}
+		})
+	}
+	return out, tops
 }
 
 // encodedUint32: buf holds the 32-bit encoding of which value(s)? Recognises PutUint32(arr[:], v) on the array buf is
